@@ -45,6 +45,8 @@ pub struct Ctx {
     pub verbose: bool,
     pub logw: Option<std::io::BufWriter<std::fs::File>>,
     pub miri: bool,
+    pub case_started: Option<(u64, Instant)>,
+    pub trace: bool,
 }
 
 pub const DIRECTED: u64 = 1 << 62;
@@ -76,6 +78,8 @@ impl Ctx {
             verbose: false,
             logw: None,
             miri: cfg!(miri),
+            case_started: None,
+            trace: std::env::var("VERIF_TRACE").is_ok(),
         };
         let mut i = 1;
         while i < args.len() {
@@ -156,6 +160,13 @@ impl Ctx {
 
     /// should the case with this id run in this shard/replay?
     pub fn want(&mut self, id: u64) -> bool {
+        if let Some((prev, t)) = self.case_started.take() {
+            let dt = t.elapsed().as_secs_f64();
+            if dt > 3.0 {
+                eprintln!("slow case {prev} of {}: {dt:.1}s", self.prop);
+                self.count("slow_cases_over_3s");
+            }
+        }
         if let Some(c) = self.only_case {
             if c != id {
                 return false;
@@ -163,7 +174,11 @@ impl Ctx {
         } else if id & DIRECTED != 0 && (id & !DIRECTED) % self.nshards != self.shard {
             return false;
         }
+        if self.trace {
+            eprintln!("case {id}");
+        }
         self.cur_case = id;
+        self.case_started = Some((id, Instant::now()));
         true
     }
 
